@@ -145,6 +145,36 @@ def check_event_uniqueness(P, r6):
             r6.bad(V(r6.id, f.id, "no-uniqueness-by-identifier", "no uniqueness step keyed on the generated function name: `ev-one` and `ev_one` both become onEvOne"))
 
 
+def check_every_emit_recorded(P, rule):
+    """an emit is recorded whatever was recorded before it: the push of an EventInfo is not guarded by a look at the list being built (the listeners
+    are made unique later, by name, in the generator — but the *payload types* of every emit are roots of the declared set).  Shared by C12-D3 and C07-D1."""
+    n = 0
+    for fid in sorted(P.fns):
+        if not fid.startswith("tauri_typegen::analysis::event_parser::") or "{promoted#" in fid:
+            continue
+        f = P.fns[fid]
+        for c in f.calls:
+            if short_path(c.path) != "Vec::push" or c.bb not in f.reach_blocks or not any("EventInfo" in g_ for g_ in c.generics):
+                continue
+            n += 1
+            recv = f.origin(c.args[0])
+            while recv[0] == "proj":
+                recv = recv[1]
+            bad = []
+            for (a, lab) in f.edge_dominators(c.bb):
+                o, out = f.cond_struct(a, lab)
+                txt = f.describe_origin(o, deep=5)
+                if recv[0] == "arg" and re.search(r"\barg:%s\b" % re.escape(recv[2]), txt):
+                    bad.append("%s=%s" % (txt[:80], out))
+            if bad:
+                rule.bad(V(rule.id, fid, "emit-recording-depends-on-earlier-emits", "an emit is recorded only under %s: what was recorded earlier decides whether this emit (and its payload type) is seen at all"
+                           % "; ".join(bad), c.file, c.line))
+            else:
+                rule.ok("%s: every recognised emit is recorded, whatever was recorded before" % short_path(fid))
+    if not n:
+        rule.bad(V(rule.id, "<anchor>", "missing:event-recording-site", "no push of an EventInfo found in the event parser"))
+
+
 def check_annotated_bindings(P, r7):
     """shared by C12-D7 and C05-D6"""
     # `let x: T = init` records T: where the pattern carries an annotation, what is recorded comes from the annotation alone — the initialiser
@@ -484,6 +514,7 @@ def check(ctx):
             r3.ok("event name = Lit::Str value")
         else:
             r3.bad(V(r3.id, "EventParser::extract_string_literal", "name-source", "the event name is not taken from a string literal's value"))
+    check_every_emit_recorded(P, r3)
     r3.require_floor(3, "position facts")
     rules.append(r3)
 
